@@ -112,7 +112,7 @@ var Ops = []Op{
 		if err != nil {
 			return err.Error()
 		}
-		return fmt.Sprint(l.Layout("AfiB"), l.Layout("ABBA"))
+		return fmt.Sprint(l.Layout("AfiB"), l.Layout("ABBA"), l.Layout("fB\ufb01"), l.Layout("AB\ufb01"))
 	}},
 	{"gtab.Apply", "", func(f *sfnt.Font) string {
 		out := ""
@@ -125,6 +125,18 @@ var Ops = []Op{
 				all = append(all, gtab.LookupIndex(i))
 			}
 			out += fmt.Sprint(gtab.NewContext(f.Gsub.LookupList, f.Gdef, all).Apply(seq()))
+			if len(all) > 3 {
+				// the chained context lookup on sequences its three rules match (backtrack B A in front of
+				// f i | fi, in front of i, and B f in front of fi): their nested actions run
+				ctx := gtab.NewContext(f.Gsub.LookupList, f.Gdef, []gtab.LookupIndex{3})
+				for _, gids := range [][]glyph.ID{{1, 2, 3, 4, 5}, {1, 2, 4}, {3, 2, 5}, {1, 2, 5, 5}} {
+					var in []glyph.Info
+					for i, g := range gids {
+						in = append(in, glyph.Info{GID: g, Text: []rune{rune('a' + i)}})
+					}
+					out += fmt.Sprint(ctx.Apply(in))
+				}
+			}
 		}
 		if f.Gpos != nil {
 			out += fmt.Sprint(gtab.NewContext(f.Gpos.LookupList, f.Gdef, []gtab.LookupIndex{0}).Apply(seq()))
@@ -248,12 +260,14 @@ func Font(k int) *sfnt.Font {
 		l0 := f.Gsub.LookupList[0]
 		l1 := gen.MakeLookup(1, gen.Flags[0], []gtab.Subtable{&gtab.Gsub1_1{Cov: coverage.Set{1: true}, Delta: 1}})
 		l2 := gen.MakeLookup(1, gen.Flags[0], []gtab.Subtable{&gtab.Gsub1_1{Cov: coverage.Set{2: true}, Delta: 2}})
-		// chained context rules in all three formats with a backtrack sequence of two different glyphs
+		// chained context rules in all three formats with a backtrack sequence of two different glyphs; two of
+		// them start with an action that can never apply (sequence index outside the input, lookup index
+		// outside the list: legal, skipped by the engine)
 		l3 := gen.MakeLookup(6, gen.Flags[0], []gtab.Subtable{
-			&gtab.ChainedSeqContext1{Cov: coverage.Table{3: 0}, Rules: [][]*gtab.ChainedSeqRule{{{Backtrack: []glyph.ID{2, 1}, Input: []glyph.ID{4}, Lookahead: []glyph.ID{5}, Actions: []gtab.SeqLookup{{SequenceIndex: 0, LookupListIndex: 1}}}}}},
+			&gtab.ChainedSeqContext1{Cov: coverage.Table{3: 0}, Rules: [][]*gtab.ChainedSeqRule{{{Backtrack: []glyph.ID{2, 1}, Input: []glyph.ID{4}, Lookahead: []glyph.ID{5}, Actions: []gtab.SeqLookup{{SequenceIndex: 7, LookupListIndex: 1}, {SequenceIndex: 0, LookupListIndex: 1}}}}}},
 			&gtab.ChainedSeqContext2{Cov: coverage.Table{4: 0}, Backtrack: classdef.Table{1: 1, 2: 2}, Input: classdef.Table{4: 1}, Lookahead: classdef.Table{},
 				Rules: [][]*gtab.ChainedClassSeqRule{nil, {{Backtrack: []uint16{2, 1}, Actions: []gtab.SeqLookup{{SequenceIndex: 0, LookupListIndex: 2}}}}}},
-			&gtab.ChainedSeqContext3{Backtrack: []coverage.Set{{2: true}, {1: true, 3: true}}, Input: []coverage.Set{{5: true}}, Actions: []gtab.SeqLookup{{SequenceIndex: 0, LookupListIndex: 1}}},
+			&gtab.ChainedSeqContext3{Backtrack: []coverage.Set{{2: true}, {1: true, 3: true}}, Input: []coverage.Set{{5: true}}, Actions: []gtab.SeqLookup{{SequenceIndex: 0, LookupListIndex: 9}, {SequenceIndex: 0, LookupListIndex: 1}}},
 		})
 		f.Gsub = &gtab.Info{
 			ScriptList:  gtab.ScriptListInfo{language.MustParse("und-Zzzz-x-dflt"): {Required: 0, Optional: []gtab.FeatureIndex{1, 2}}},
